@@ -7,6 +7,7 @@ import copy
 from props import common, l1common, l1gen
 
 ID = "C20"
+NEEDS_BINARY = True
 TRUSTED_BASE = common.BASE_TRUSTED + [
     "C20: series-level statement (whole push) follows from the file-level theorem because --fuzz only reaches FilePatch::apply; the binary-level comparison is part of the tree-level checks",
 ]
@@ -80,10 +81,40 @@ def run(ctx):
             if outs[j] != mouts[j] and bad == 0:
                 ctx.violation({"kind": "correspondence-mismatch", "case_line": lines[j], "implementation": outs[j],
                                "model": mouts[j]}, no_input=True)
+    push_level(ctx, rng, 400 if thorough else 60)
     ctx.coverage["evaluations"] = ctx.coverage.get("evaluations", 0) + len(lines)
     ctx.coverage["metamorphic_pairs"] = len(meta)
     ctx.coverage["metamorphic_pairs_compared_nontrivially"] = compared
     ctx.coverage["traces_validated_against_impl"] = ctx.coverage.get("traces_validated_against_impl", 0) + len(lines)
+
+
+def push_level(ctx, rng, n):
+    """the statement for whole pushes, on the binary: a series that applies completely under limit F leaves the same
+    tree - every file, .pc with its backups and applied-patches included - and the same exit status under F' > F,
+    in every backup mode and thread count"""
+    from props import l3common, l3gen, ws
+    bad = done = 0
+    for _ in range(n):
+        w = l3gen.gen_workspace(rng, fail_prob=0.15)
+        cfg = l3common.rand_cfg(rng, threads=(1, 1, 2, 4))
+        lo, hi = rng.choice([(0, 1), (0, 2), (0, 3), (1, 2), (1, 3), (2, 5)])
+        c1 = dict(cfg); c1["fuzz"] = lo
+        c2 = dict(cfg); c2["fuzz"] = hi
+        r1, out1, _ = l3gen.run_real(ctx.binary, w, c1)
+        if l3common.exit_of(r1) != "0":
+            continue
+        done += 1
+        r2, out2, _ = l3gen.run_real(ctx.binary, w, c2)
+        if r1 != r2:
+            bad += 1
+            if bad <= 2:
+                a, b = r1.split(" | "), r2.split(" | ")
+                ctx.violation({"kind": "fuzz-limit-changes-push", "limits": [lo, hi], "workspace": l3common.ws_json(w), "cfg": l3common.cfg_json(cfg),
+                               "args_lo": l3gen.cfg_args(c1), "args_hi": l3gen.cfg_args(c2),
+                               "only_lo": [x[:160] for x in a if x not in b][:4], "only_hi": [x[:160] for x in b if x not in a][:4]})
+    ws.cleanup_all()
+    ctx.coverage["push_level_pairs_compared"] = done
+    ctx.coverage["evaluations"] = ctx.coverage.get("evaluations", 0) + 2 * done
 
 
 def mono_problem_from(a, b, lo, hi):
@@ -105,7 +136,7 @@ def mono_problem_from(a, b, lo, hi):
 
 def replay(ctx, payload):
     c = payload.get("case")
-    if not c or "limits" not in payload:
+    if not c or "limits" not in payload or "workspace" in payload:
         return run(ctx)
     lo, hi = payload["limits"]
     why = mono_problem(ctx, c, lo, hi)
